@@ -57,6 +57,11 @@ CLAIMED = {
         "Decides sentence 1 for all three x86 backends: every instruction an emitter can produce (about 2000 distinct rule/site/row/class obligations) needs an ISA level implied by the required flags of every rule set the rule is registered in plus the target_flags tests dominating the site; non-rule emitters are held to the weakest rule-set requirement of their backend. Sentence 2 (same results for every flag subset) is not decided.",
         "Trusted: binutils' extension tables as ISA reference; hardware implication between ladder levels; MMXEXT implies only the SSE integer extensions on mm registers. Sites whose opcode argument is not constant-resolvable are listed as information.",
         "DESIGN.md §4 C11"),
+    "C10": (
+        "sibling comparison of prologue pushes and epilogue pops (register, predicate, order, loop direction), ABI reference tables vs save_regs/valid_regs stores, abstract interpretation of the MXCSR emission sequences over {ORIG, MOD} slot values, path search with boolean-constant tracking for set=>restore and emms-before-epilogue, row-based checks for vzeroupper/ret and stack adjustment",
+        "Decides that epilogue pops mirror prologue pushes in both the 64-bit and the 32-bit variant, that the SysV AMD64 / i386 callee-saved sets are preserved and ESP, the executor and the scratch register are never allocatable, that restore_mxcsr reloads the slot in which set_mxcsr kept the caller's value (mask 0x8040), that set is always followed by restore before the epilogue, emms is emitted on every path, vzeroupper precedes ret for AVX, and the vector save area is released by the amount it was reserved. Spills under register pressure and the direction flag are not decided.",
+        "Trusted: SysV/i386 callee-saved sets; the emission helpers interpreted in D3 (stmxcsr/ldmxcsr/mov/or) are the only ones the MXCSR sequences use (anything else is exit 2).",
+        "DESIGN.md §4 C10"),
 }
 
 NOT_YET = "check under construction in this round; not claimed until its rules are exact on the current tree"
